@@ -45,6 +45,10 @@ def simulate_paired(spec):
                          "f": [int(round(2 * sc)), int(rng.integers(0, 5)), int(round(sc))]})
     order = rng.permutation(len(rows))
     rows = [rows[int(i)] for i in order]
+    if spec.get("target_first"):
+        # file order correlated with the label: all target PSMs before all decoy PSMs (a target result file followed by the
+        # decoy file).  The competition must still be decided by the score, never by the position in the file.
+        rows = [r for r in rows if r["tgt"]] + [r for r in rows if not r["tgt"]]
     for i, r in enumerate(rows):
         r["id"] = i
         r["pep"] = i
@@ -203,6 +207,8 @@ def run(ctx):
                       "est": "memo", "cap": 500 + 100 * (r % 3), "group": "memo+cap"})
         extra.append({"seed": ctx.seed * 100000 + 600000 + r, "n": 1600, "pi0": 0.5, "sep": [2.5, 3.0][r % 2], "folds": 2 + r % 3,
                       "est": ["feat", "tree"][r % 2], "family": "paired", "group": "paired-ties/" + ["feat", "tree"][r % 2]})
+        extra.append({"seed": ctx.seed * 100000 + 650000 + r, "n": 1600, "pi0": 0.5, "sep": [2.5, 3.0][r % 2], "folds": 2 + r % 3,
+                      "est": "feat", "family": "paired", "target_first": True, "group": "paired-target-first"})
     # jointly modelled files of equal size, and trained fold models re-applied under another seed (both with the memoriser)
     for r in range(reps):
         extra.append({"seed": ctx.seed * 100000 + 700000 + r, "n": 1600, "pi0": 0.5, "sep": [2.0, 3.0][r % 2], "folds": 2 + r % 3,
@@ -229,7 +235,7 @@ def run(ctx):
     # ---- FdrTrace groups: (learner, level, alpha) over replicates
     traces, meta = [], []
     failed_runs = sum(1 for s, r in zip(specs, res) if r["raised"])
-    for est in learners + ["memo+cap", "paired-ties/feat", "paired-ties/tree", "memo+2files", "memo+reseed", "memo+reversed", "memo+chunks", "memo+leak"]:      # one group per learner: a mixture of learners would inflate the SE
+    for est in learners + ["memo+cap", "paired-ties/feat", "paired-ties/tree", "paired-target-first", "memo+2files", "memo+reseed", "memo+reversed", "memo+chunks", "memo+leak"]:      # one group per learner: a mixture of learners would inflate the SE
         sel = [r for s, r in zip(specs, res) if (s.get("group") or (s["est"] + ("+leak" if s.get("leak") else ""))) == est and not r["raised"]]
         if len(sel) < 2:
             continue
